@@ -153,7 +153,7 @@ Fixpoint reach (g : pgraph) (fuel : nat) (frontier seen : list nat) : list nat :
 (* PathExists: None = a label is unknown (ErrQueryingGraph) *)
 Definition path_exists (g : pgraph) (a b : str) : option bool :=
   match find_pnode a g, find_pnode b g with
-  | Some x, Some y => Some (existsb (Nat.eqb (pn_id y)) (reach g (length (pg_nodes g)) [pn_id x] [pn_id x]))
+  | Some x, Some y => Some (existsb (Nat.eqb (pn_id y)) (reach g (S (length (pg_lines g))) [pn_id x] [pn_id x]))
   | _, _ => None
   end.
 
